@@ -9,9 +9,25 @@ Every statement is for every instance, origin, destination and every schedule th
 (ties, re-opened vertices).  A* needs admissibility (`hv v ≤` cost of every walk from `v` to the
 target) — on metrically consistent networks with weight factor ≤ 1 that is what the great-circle
 estimate provides; Dijkstra (`h = 0`) needs nothing.
+
+`Uniform` / `UniformCost` quantify over *every* state vector and previous edge, which no concrete
+configuration meets (a malformed state makes the traversal fail).  The `_on` theorems take the
+premises only on the calls the search really makes and only of calls that answer
+(`UniformOn` / `UniformCostOn`, relative to an invariant `S` of the (last edge, state) pairs), and the
+`config_…` theorems discharge them for every *edge-local* configuration (`Config.EdgeLocal`: no access
+model, no turn restrictions, consistent adjacency) — with the distance or the speed-table traversal
+model, any weights, rates (offsets too), surcharges, aggregation and feature units: there the cost of
+an edge is `Config.costOf c e`, the floor applied to the C07 formula of the edge's own state change.
+Admissibility of the configuration's own estimate `Config.hOf` is a premise of
+`config_astar_route_least_cost` and is proved (`config_distance_estimate_admissible`,
+`config_speed_estimate_admissible`) on metrically consistent great-circle tables: sum aggregation,
+rates from the property's list (`zero / raw / factor ≥ 0 / combined`, no offset), weights, surcharges
+and lengths ≥ 0, `0 ≤ weight_factor ≤ 1`, `max_speed ≥` every table speed.
 -/
 import Compass.Proofs.SearchOpt
 import Compass.Proofs.SearchRoute
+import Compass.Proofs.ConfigUniform
+import Compass.Proofs.ConfigAdmissible
 
 namespace Compass
 namespace C02
@@ -108,6 +124,279 @@ admissible heuristic meets every premise, and the theorem applies to an actual r
 
 example : Uniform Example.exInst Example.exOk Example.exCost Example.exH := Example.ex_uniform
 example : Admissible Example.exInst Example.exOk Example.exCost Example.exH 3 := Example.ex_admissible
+
+/-! ### The same with the premises restricted to the calls the search makes (`UniformOn`) -/
+
+/-- every instance in the old setting is in the new one (invariant `True`) -/
+theorem uniform_is_uniform_on {I : Inst α} {ok : Nat → Bool} {c hv : Nat → α}
+    (U : Uniform I ok c hv) : UniformOn I (fun _ _ => True) ok c hv :=
+  U.toOn
+
+/-- A*, label: premises only on the (last edge, state) pairs satisfying the invariant `S` -/
+theorem astar_label_least_cost_on {I : Inst α} {S : Option Nat → List α → Prop} {ok : Nat → Bool}
+    {c hv : Nat → α} (U : UniformOn I S ok c hv) {source t : Nat} (hts : t ≠ source)
+    (hadm : Admissible I ok c hv t) {sched : List Nat} {s : SState α}
+    (hrun : runAStar I source (some t) sched = .ok s) :
+    ∃ d, s.g t = some d ∧ (∃ es, Walk I ok source es t ∧ cost c es = d) ∧
+      ∀ es, Walk I ok source es t → d ≤ cost c es :=
+  label_optimal_on U hts hadm hrun
+
+/-- A*, route (`WF I`: every answered traversal charges a positive cost) -/
+theorem astar_route_least_cost_on {I : Inst α} {S : Option Nat → List α → Prop} {ok : Nat → Bool}
+    {c hv : Nat → α} (hI : SearchTree.WF I) (U : UniformOn I S ok c hv) {source t : Nat}
+    (hts : t ≠ source) (hadm : Admissible I ok c hv t) {sched : List Nat} {res : SearchResult α}
+    (h : runVertexOriented I source (some t) sched = .ok res) :
+    ∃ route d, res.route = some route ∧ route ≠ [] ∧
+      Walk I ok source (route.map (·.edge)) t ∧
+      (route.map (fun b => b.access + b.traversal)).sum = cost c (route.map (·.edge)) ∧
+      res.final.g t = some d ∧
+      (route.map (fun b => b.access + b.traversal)).sum = d ∧
+      ∀ es, Walk I ok source es t → (route.map (fun b => b.access + b.traversal)).sum ≤ cost c es :=
+  SearchRoute.route_optimal_on hI U hts hadm h
+
+/-- Dijkstra, route: whenever the heuristic answers, it answers 0 -/
+theorem dijkstra_route_least_cost_on {I : Inst α} {S : Option Nat → List α → Prop}
+    {ok : Nat → Bool} {c : Nat → α} (hI : SearchTree.WF I) (U : UniformCostOn I S ok c)
+    (h0 : VertexHOn I S (fun _ => 0)) {source t : Nat} (hts : t ≠ source)
+    {sched : List Nat} {res : SearchResult α}
+    (h : runVertexOriented I source (some t) sched = .ok res) :
+    ∃ route d, res.route = some route ∧ route ≠ [] ∧
+      Walk I ok source (route.map (·.edge)) t ∧
+      (route.map (fun b => b.access + b.traversal)).sum = cost c (route.map (·.edge)) ∧
+      res.final.g t = some d ∧
+      (route.map (fun b => b.access + b.traversal)).sum = d ∧
+      ∀ es, Walk I ok source es t → (route.map (fun b => b.access + b.traversal)).sum ≤ cost c es :=
+  SearchRoute.dijkstra_route_optimal_on hI U h0 hts h
+
+/-! ### Concrete configurations -/
+
+/-- `StateIndep`, proved: in an edge-local configuration, whenever the frontier models answer the
+verdict is `okOf c e`, and whenever `forward_traversal` / `reverse_traversal` answers — from any
+state, after any previous edge — the record's `access + traversal` is `costOf c e > 0` -/
+theorem config_edge_cost_uniform (c : Config α) (h : c.EdgeLocal) :
+    UniformCostOn c.inst (fun _ _ => True) c.okOf c.costOf :=
+  c.uniformCostOn h
+
+/-- what `costOf` is under sum aggregation: the floor applied to
+`Σᵢ wᵢ·rateᵢ(Δᵢ e) + Σᵢ wᵢ·lookupᵢ(e)`, `Δ e` the state change of the edge
+(`Config.edgeDelta_distance`, `Config.edgeDelta_speed`) -/
+theorem config_edge_cost_formula (c : Config α) (hs : c.cost.agg = .sum) (e : Nat) :
+    c.costOf e = enforceStrictlyPositive
+      ((c.cost.indices.map fun i => c.cost.wt i * (c.cost.vr i).mapValue (c.edgeDelta e i)).sum
+        + (c.cost.indices.map fun i => c.cost.wt i * (c.cost.nr i).traversalCost e).sum) :=
+  c.costOf_sum hs e
+
+/-- whenever `estimate_traversal_cost` answers it answers `hOf c v`, whatever the state -/
+theorem config_estimate_vertex_function (c : Config α) (v : Nat) (st : List α) (x : α)
+    (h : estimate c v st = .ok x) : x = c.hOf v :=
+  estimate_eq c v st x h
+
+/-- **Dijkstra on a concrete configuration** (`weight_factor = 0`): every edge-local configuration,
+every origin, destination and schedule — the returned route is a valid walk whose summed cost is
+`Σ costOf` over its edges and is the least over all valid walks -/
+theorem config_dijkstra_route_least_cost (c : Config α) (h : c.EdgeLocal) (hwf : c.wf = some 0)
+    {source t : Nat} (hts : t ≠ source)
+    {sched : List Nat} {r : AlgResult α} (hrun : c.runVertex source (some t) sched = .ok r) :
+    ∃ route, r.routes = [route] ∧ route ≠ [] ∧
+      Walk c.inst c.okOf source (route.map (·.edge)) t ∧
+      (route.map (fun b => b.access + b.traversal)).sum = cost c.costOf (route.map (·.edge)) ∧
+      ∀ es, Walk c.inst c.okOf source es t →
+        (route.map (fun b => b.access + b.traversal)).sum ≤ cost c.costOf es :=
+  _root_.Compass.config_dijkstra_route_least_cost c h hwf hts hrun
+
+/-- **A\* on a concrete configuration**: the same for any non-negative weight factor when the
+configuration's estimate `hOf` is admissible for the destination (e.g. consistent,
+`consistent_is_admissible`) -/
+theorem config_astar_route_least_cost (c : Config α) (h : c.EdgeLocal) (hwf : 0 ≤ c.wfOf)
+    {source t : Nat} (hts : t ≠ source) (hadm : Admissible c.inst c.okOf c.costOf c.hOf t)
+    {sched : List Nat} {r : AlgResult α} (hrun : c.runVertex source (some t) sched = .ok r) :
+    ∃ route, r.routes = [route] ∧ route ≠ [] ∧
+      Walk c.inst c.okOf source (route.map (·.edge)) t ∧
+      (route.map (fun b => b.access + b.traversal)).sum = cost c.costOf (route.map (·.edge)) ∧
+      ∀ es, Walk c.inst c.okOf source es t →
+        (route.map (fun b => b.access + b.traversal)).sum ≤ cost c.costOf es :=
+  _root_.Compass.config_astar_route_least_cost c h hwf hts hadm hrun
+
+/-- **through the edge-oriented wrapper** (`run_edge_oriented`, origin and destination edges not
+adjacent): the returned route's summed cost is the least cost of a valid walk from the origin edge's
+head to the destination edge's tail -/
+theorem config_edge_oriented_route_least_cost (c : Config α) (h : c.EdgeLocal) (hwf : 0 ≤ c.wfOf)
+    (source tgt : Nat) (sched : List Nat) (r : AlgResult α)
+    (e1 e2 : EdgeRec α) (h1 : c.edges[source]? = some e1) (h2 : c.edges[tgt]? = some e2)
+    (hne : source ≠ tgt) (hnadj : e1.dst ≠ e2.src)
+    (hadm : Admissible c.inst c.okOf c.costOf c.hOf e2.src)
+    (hrun : c.runEdge source (some tgt) sched = .ok r) :
+    ∃ (route inner : List (Branch α)) (last : Branch α), r.routes = [route] ∧
+      route = SearchRoute.originBranch c source e1 :: inner
+        ++ [SearchRoute.destBranch tgt e2 last.state] ∧
+      Walk c.inst c.okOf e1.dst (inner.map (·.edge)) e2.src ∧
+      (route.map (fun b => b.access + b.traversal)).sum = cost c.costOf (inner.map (·.edge)) ∧
+      ∀ es, Walk c.inst c.okOf e1.dst es e2.src →
+        (route.map (fun b => b.access + b.traversal)).sum ≤ cost c.costOf es :=
+  _root_.Compass.config_edge_oriented_route_least_cost c h hwf source tgt sched r e1 e2 h1 h2 hne
+    hnadj hadm hrun
+
+/-- **`estimate_admissible`** (distance model): sum aggregation, rates in use linear and
+non-decreasing (the property's list `zero / raw / factor ≥ 0 / combined`, no offset:
+`CostModel.rates_of_offsetFree`), weights, surcharges, lengths ≥ 0, weight factor in `[0, 1]`, and a
+great-circle table that is ≥ 0, zero at the destination and consistent with the lengths of the
+permitted edges (`Config.DistanceMetric`): the configuration's own estimate is admissible -/
+theorem config_distance_estimate_admissible (c : Config α) (hadj : c.AdjConsistent)
+    {du : DistanceUnit} {t : Nat} (M : c.DistanceMetric du t) :
+    Admissible c.inst c.okOf c.costOf c.hOf t :=
+  c.distance_estimate_admissible hadj M
+
+/-- **A\* on a concrete configuration with its own estimate** (distance model): no premise on the
+heuristic is left -/
+theorem config_astar_distance_route_least_cost (c : Config α) (h : c.EdgeLocal)
+    {du : DistanceUnit} {source t : Nat} (M : c.DistanceMetric du t) (hts : t ≠ source)
+    {sched : List Nat} {r : AlgResult α} (hrun : c.runVertex source (some t) sched = .ok r) :
+    ∃ route, r.routes = [route] ∧ route ≠ [] ∧
+      Walk c.inst c.okOf source (route.map (·.edge)) t ∧
+      (route.map (fun b => b.access + b.traversal)).sum = cost c.costOf (route.map (·.edge)) ∧
+      ∀ es, Walk c.inst c.okOf source es t →
+        (route.map (fun b => b.access + b.traversal)).sum ≤ cost c.costOf es :=
+  _root_.Compass.config_astar_distance_route_least_cost c h M hts hrun
+
+/-- **`estimate_admissible`** (speed-table model): as for the distance model, with positive
+lengths, positive table speeds and `max_speed ≥` every table speed (`Config.SpeedMetric`) -/
+theorem config_speed_estimate_admissible (c : Config α) (hadj : c.AdjConsistent)
+    {su : SpeedUnit} {du : DistanceUnit} {tu : TimeUnit} {ms : α} {table : List α} {t : Nat}
+    (M : c.SpeedMetric su du tu ms table t) : Admissible c.inst c.okOf c.costOf c.hOf t :=
+  c.speed_estimate_admissible hadj M
+
+/-- **A\* on a concrete configuration with its own estimate** (speed-table model) -/
+theorem config_astar_speed_route_least_cost (c : Config α) (h : c.EdgeLocal)
+    {su : SpeedUnit} {du : DistanceUnit} {tu : TimeUnit} {ms : α} {table : List α}
+    {source t : Nat} (M : c.SpeedMetric su du tu ms table t) (hts : t ≠ source)
+    {sched : List Nat} {r : AlgResult α} (hrun : c.runVertex source (some t) sched = .ok r) :
+    ∃ route, r.routes = [route] ∧ route ≠ [] ∧
+      Walk c.inst c.okOf source (route.map (·.edge)) t ∧
+      (route.map (fun b => b.access + b.traversal)).sum = cost c.costOf (route.map (·.edge)) ∧
+      ∀ es, Walk c.inst c.okOf source es t →
+        (route.map (fun b => b.access + b.traversal)).sum ≤ cost c.costOf es :=
+  _root_.Compass.config_astar_speed_route_least_cost c h M hts hrun
+
+/-- the premise on the rates is the property's own list: rates built from
+`zero / raw / factor f ≥ 0 / combined` of those are linear and non-decreasing -/
+theorem listed_rates_linear (m : CostModel α)
+    (h : ∀ i ∈ m.indices, (m.vr i).offsetFree = true ∧ 0 ≤ m.wt i) :
+    m.LinearRates ∧ m.NonnegRates :=
+  m.rates_of_offsetFree h
+
+/-! ### Non-vacuity of the generalisation itself: `Example.exInstS` prices malformed states wrongly, so
+it is outside `UniformCost`, and inside `UniformOn` with the invariant "the state has one slot" -/
+
+example : ¬ UniformCost Example.exInstS Example.exOk Example.exCost := Example.ex_not_uniformCost
+example : UniformOn Example.exInstS (fun _ st => st.length = 1) Example.exOk Example.exCost
+    Example.exH := Example.ex_uniform_on
+
+/-! ### Non-vacuity on concrete configurations (`ConfigUniform.Example`): an offset rate, an edge
+surcharge, a unit conversion, a forbidden shortcut, a cycle and self loops; the speed-table model;
+A* with a non-zero admissible estimate; a reverse search. -/
+
+section
+open ConfigUniform.Example SearchRoute.Example
+
+/-- Dijkstra on `exC`: the run returns `[0, 7]` (not the shortest-by-length `[0, 1, 2]`, not the
+forbidden shortcut `[6]`), and the theorem bounds every valid walk `0 ⇝ 3` by its cost -/
+example : ∃ r route, exC.runVertex 0 (some 3) [0, 1, 2, 3] = .ok r ∧ r.routes = [route] ∧
+    route.map (·.edge) = [0, 7] ∧
+    ∀ es, Walk exC.inst exC.okOf 0 es 3 →
+      (route.map (fun b => b.access + b.traversal)).sum ≤ cost exC.costOf es := by
+  obtain ⟨r, hr⟩ := ok_of_routeEdgesOf exC_run
+  obtain ⟨route, h1, _, _, _, h5⟩ :=
+    config_dijkstra_route_least_cost exC exC_edgeLocal rfl (by decide) hr
+  refine ⟨r, route, hr, h1, ?_, h5⟩
+  have := exC_run
+  rw [hr] at this
+  simpa [routeEdgesOf, h1] using this
+
+/-- the quantifier over walks is not empty, and the cheaper shortcut is indeed excluded -/
+example : Walk exC.inst exC.okOf 0 [0, 1, 2] 3 ∧ ¬ Walk exC.inst exC.okOf 0 [6] 3 ∧
+    cost exC.costOf [6] < cost exC.costOf [0, 7] ∧
+    cost exC.costOf [0, 7] < cost exC.costOf [0, 1, 2] := by
+  simp only [Walk]
+  decide +kernel
+
+/-- the speed-table model (`exS`), A* with a non-zero estimate (`exA`), a reverse search (`exR`) -/
+example : ∃ r route, exS.runVertex 0 (some 3) [0, 1, 2, 3] = .ok r ∧ r.routes = [route] ∧
+    ∀ es, Walk exS.inst exS.okOf 0 es 3 →
+      (route.map (fun b => b.access + b.traversal)).sum ≤ cost exS.costOf es := by
+  obtain ⟨r, hr⟩ := ok_of_routeEdgesOf exS_run
+  obtain ⟨route, h1, _, _, _, h5⟩ :=
+    config_dijkstra_route_least_cost exS exS_edgeLocal rfl (by decide) hr
+  exact ⟨r, route, hr, h1, h5⟩
+
+example : exA.hOf 0 ≠ 0 ∧ ∃ r route, exA.runVertex 0 (some 3) [0, 1, 2, 3] = .ok r ∧
+    r.routes = [route] ∧
+    ∀ es, Walk exA.inst exA.okOf 0 es 3 →
+      (route.map (fun b => b.access + b.traversal)).sum ≤ cost exA.costOf es := by
+  refine ⟨by rw [exA_h0]; norm_num, ?_⟩
+  obtain ⟨r, hr⟩ := ok_of_routeEdgesOf exA_run
+  obtain ⟨route, h1, _, _, _, h5⟩ :=
+    config_astar_route_least_cost exA exA_edgeLocal (by simp [Config.wfOf, exA]) (by decide)
+      exA_admissible hr
+  exact ⟨r, route, hr, h1, h5⟩
+
+example : ∃ r route, exR.runVertex 3 (some 0) [3, 2, 1, 0] = .ok r ∧ r.routes = [route] ∧
+    ∀ es, Walk exR.inst exR.okOf 3 es 0 →
+      (route.map (fun b => b.access + b.traversal)).sum ≤ cost exR.costOf es := by
+  obtain ⟨r, hr⟩ := ok_of_routeEdgesOf exR_run
+  obtain ⟨route, h1, _, _, _, h5⟩ :=
+    config_dijkstra_route_least_cost exR exR_edgeLocal rfl (by decide) hr
+  exact ⟨r, route, hr, h1, h5⟩
+
+/-- the edge-oriented wrapper on `exC`: origin edge 0 (0→1), destination edge 4 (3→1); the inner
+route is `[7]` -/
+example : ∃ r route, exC.runEdge 0 (some 4) [1, 2, 3] = .ok r ∧ r.routes = [route] ∧
+    route.map (·.edge) = [0, 7, 4] ∧
+    ∀ es, Walk exC.inst exC.okOf 1 es 3 →
+      (route.map (fun b => b.access + b.traversal)).sum ≤ cost exC.costOf es := by
+  have hobs : routeEdgesOf (exC.runEdge 0 (some 4) [1, 2, 3]) = some [[0, 7, 4]] := by
+    decide +kernel
+  obtain ⟨r, hr⟩ := ok_of_routeEdgesOf hobs
+  obtain ⟨route, inner, last, h1, _, _, _, h5⟩ :=
+    config_edge_oriented_route_least_cost exC exC_edgeLocal (by simp [Config.wfOf, exC]) 0 4
+      [1, 2, 3] r ⟨0, 1, 1000⟩ ⟨3, 1, 700⟩ rfl rfl (by decide) (by decide)
+      (exC.admissible_dijkstra rfl 3) hr
+  refine ⟨r, route, hr, h1, ?_, h5⟩
+  rw [hr] at hobs
+  simpa [routeEdgesOf, h1] using hobs
+
+/-- why the property excludes offset rates *for A\**: with an offset the estimate at the destination
+itself is positive (`exC` with weight factor one: `hOf 3 = 2`), so it is not admissible.  Dijkstra
+(weight factor 0, the examples above) is not affected: the cost of an edge is still a function of the
+edge alone. -/
+example : ¬ Admissible ({ exC with wf := none } : Config ℚ).inst ({ exC with wf := none } : Config ℚ).okOf
+    ({ exC with wf := none } : Config ℚ).costOf ({ exC with wf := none } : Config ℚ).hOf 3 := by
+  intro h
+  have h3 := h 3 [] rfl
+  revert h3
+  simp only [cost]
+  decide +kernel
+
+/-- `exA` meets `DistanceMetric`, so its A* run needs no premise on the estimate -/
+example : ∃ r route, exA.runVertex 0 (some 3) [0, 1, 2, 3] = .ok r ∧ r.routes = [route] ∧
+    ∀ es, Walk exA.inst exA.okOf 0 es 3 →
+      (route.map (fun b => b.access + b.traversal)).sum ≤ cost exA.costOf es := by
+  obtain ⟨r, hr⟩ := ok_of_routeEdgesOf exA_run
+  obtain ⟨route, h1, _, _, _, h5⟩ :=
+    config_astar_distance_route_least_cost exA exA_edgeLocal exA_metric (by decide) hr
+  exact ⟨r, route, hr, h1, h5⟩
+
+/-- `exSA` (speed table, time cost, weight factor one) meets `SpeedMetric` -/
+example : exSA.hOf 0 ≠ 0 ∧ ∃ r route, exSA.runVertex 0 (some 3) [0, 1, 2, 3] = .ok r ∧
+    r.routes = [route] ∧
+    ∀ es, Walk exSA.inst exSA.okOf 0 es 3 →
+      (route.map (fun b => b.access + b.traversal)).sum ≤ cost exSA.costOf es := by
+  refine ⟨exSA_h0, ?_⟩
+  obtain ⟨r, hr⟩ := ok_of_routeEdgesOf exSA_run
+  obtain ⟨route, h1, _, _, _, h5⟩ :=
+    config_astar_speed_route_least_cost exSA exSA_edgeLocal exSA_metric (by decide) hr
+  exact ⟨r, route, hr, h1, h5⟩
+
+end
 
 end C02
 end Compass
